@@ -2,11 +2,13 @@
 """prints the prompt for a breakage-seeding sub-agent for property <id> (only the property text, nothing from /verif)"""
 import json, sys
 pid = sys.argv[1]
+suf = sys.argv[2] if len(sys.argv) > 2 else 'ab'
+A, B = suf[0], suf[1]
 p = [json.loads(l) for l in open('/verif/properties.jsonl') if json.loads(l)['id'] == pid][0]
 name = pid.lower()
 print(f"""You are testing how robust a Go codebase's guarantees are. The repository is lianxiangcloud/linkchain (a Tendermint-style BFT blockchain node with EVM/WASM VMs, Merkle trie state, mempool, p2p and a Monero-style confidential transaction layer), checked out at /repo. You must NOT modify /repo itself and must not look at or use anything under /verif.
 
-First read /opt/xcshim/README.md (how to build and run tests of the core packages in this offline sandbox). Create your own scratch git worktree with `/opt/xcshim/setup_worktree.sh {name}a` (prints the directory, /tmp/mut-{name}a) and work only there (for a second, different change use `{name}b`).
+First read /opt/xcshim/README.md (how to build and run tests of the core packages in this offline sandbox). Create your own scratch git worktree with `/opt/xcshim/setup_worktree.sh {name}{A}` (prints the directory, /tmp/mut-{name}{A}) and work only there (for a second, different change use `{name}{B}`).
 
 The property under test (it currently holds in /repo):
 
@@ -22,8 +24,8 @@ Your job: produce TWO different, realistic changes to the repository's non-test 
   (3) BREAKS the property above — in a way that needs something specific to manifest: a particular interleaving or message order, a crash or fault at a particular point, a multi-step sequence of operations, an unusual input or boundary value, or two cooperating sites that each look fine alone. Not a change that ordinary use would expose at once (no "always return true"), and not a change to test files, build tags, or logging only. Think of the kind of regression a plausible refactoring, optimisation or "simplification" by a maintainer could introduce: an off-by-one in a bound, a dropped guard on one rarely taken branch, a cache keyed too loosely, a lock dropped around one access, a check moved after the point it protects, a comparison that is wrong only for equal values, a missing undo entry, a flush skipped on one path, etc. The two changes should hit different mechanisms.
   (4) comes with a DEMONSTRATION: a Go test file (or small program) that you add in the worktree, which FAILS (or prints a clear violation) with your change and PASSES on the unmodified code. Verify both yourself. NEVER use `git stash` (the stash list is shared by all worktrees of /repo and other agents work concurrently): for the unmodified run do `git diff > /tmp/mine.diff; git apply -R /tmp/mine.diff; <run>; git apply /tmp/mine.diff`. The demonstration may use unexported identifiers (same-package test) and may need the stand-in described in the README.
 
-Deliverables for each change X in {{a,b}}, written to /tmp/mut-out/{name}X/ (create it):
+Deliverables for each change X in {{{A},{B}}}, written to /tmp/mut-out/{name}X/ (create it):
   - patch.diff  : `git diff` of the source change only (no test/demonstration files, no xcshimgo/)
   - the demonstration file(s), with a one-line comment at the top saying where in the tree it goes and the exact command to run it
-  - meta.json   : {{"property": "{pid}", "summary": "<what the change does>", "needs": "<what specific condition it needs to manifest>", "files": [...], "demo_cmd": "<command>", "pinned_tests_run": "<command(s) you ran and result>"}}
+  - meta.json   : {{"property": "{pid}", "summary": "<what the change does>", "needs": "<what specific condition it needs to manifest>", "files": [...], "demo_cmd": "<one shell command, nothing after it: no trailing prose or parentheses>", "pinned_tests_run": "<command(s) you ran and result>"}}
 Leave the worktrees in place. Keep each patch small (a few lines). Always wrap commands in `timeout`. Your final message: for each change, 3-5 lines: what, why it is subtle, how the demo shows it, test results.""")
